@@ -29,10 +29,11 @@ theorem SuccProp.of_ras {s s' : St} (h : SuccProp s) (e : s'.ras = s.ras) : Succ
   intro r hr; rw [e] at hr; exact h r hr
 
 /-- writing a rollapp record -/
-theorem RolesCore.of_setRa {s : St} {r r0 : Rollapp} (h : RolesCore s) (hg : getRa s r.id = some r0)
+theorem RolesCore.of_setRa {s : St} {id : Nat} {r r0 : Rollapp} (h : RolesCore s) (hg0 : getRa s id = some r0) (hid : r.id = r0.id)
     (hp : ∀ a, r.proposer = some a → BondedOf s r.id a) (hs : ∀ a, r.successor = some a → BondedOf s r.id a)
     (hne : ∀ a, r.proposer = some a → r.successor ≠ some a)
     (hnq : ∀ t a, (t, a) ∈ s.nq → r0.proposer = some a → r.proposer = some a) : RolesCore (setRa s r) := by
+  have hg : getRa s r.id = some r0 := by rw [hid, getRa_id hg0]; exact hg0
   constructor
   · exact h.uniq.of_setRa r
   · intro x hx a ha
@@ -66,35 +67,38 @@ theorem SuccProp.of_setRa {s : St} {r : Rollapp} (h : SuccProp s) (hr : r.propos
   · subst h1; exact hr
 
 theorem BondedOf.of_setSeq {s : St} {q q0 : Seq} {id : Nat} {a : Addr} (h : BondedOf s id a)
-    (hg : getSeq s q.addr = some q0) (hr : q.rollapp = q0.rollapp) (hb : q.bonded = true ∨ a ≠ q.addr) :
+    (hg : getSeq s q.addr = some q0) (hr : q.rollapp = q0.rollapp) (hb : q0.bonded = true → q.bonded = true ∨ a ≠ q.addr) :
     BondedOf (setSeq s q) id a := by
   obtain ⟨q1, hq1, hb1, hr1⟩ := h
   by_cases hc : a = q.addr
   · subst hc
     rw [hg] at hq1; injection hq1 with hq1; subst hq1
     refine ⟨q, getSeq_setSeq_same hg, ?_, hr.trans hr1⟩
-    rcases hb with hb | hb
+    rcases hb hb1 with hb | hb
     · exact hb
     · exact absurd rfl hb
   · exact ⟨q1, by rw [getSeq_setSeq_other (Ne.symm hc)]; exact hq1, hb1, hr1⟩
 
 /-- writing a sequencer record: the rollapp is unchanged; it may be unbonded only when it holds no
     role; a started notice implies opted out; its notice-queue entry matches its notice time -/
-theorem RolesCore.of_setSeq {s : St} {q q0 : Seq} (h : RolesCore s) (hg : getSeq s q.addr = some q0)
+theorem RolesCore.of_setSeq {s : St} {a0 : Addr} {q q0 : Seq} (h : RolesCore s) (hg0 : getSeq s a0 = some q0) (ha0 : q.addr = q0.addr)
     (hr : q.rollapp = q0.rollapp)
-    (hb : q.bonded = true ∨ ∀ r ∈ s.ras, r.proposer ≠ some q.addr ∧ r.successor ≠ some q.addr)
+    (hb : q0.bonded = true → q.bonded = true ∨ ∀ r ∈ s.ras, r.proposer ≠ some q.addr ∧ r.successor ≠ some q.addr)
     (ho : q.notice.isSome = true → q.optedIn = false)
     (hn : ∀ t, (t, q.addr) ∈ s.nq → q.notice = some t) : RolesCore (setSeq s q) := by
+  have hg : getSeq s q.addr = some q0 := by rw [ha0, getSeq_addr hg0]; exact hg0
   constructor
   · exact h.uniq.of_setSeq q
   · intro r hr' a ha
     apply (h.prop r hr' a ha).of_setSeq hg hr
-    rcases hb with hb | hb
+    intro hb0
+    rcases hb hb0 with hb | hb
     · exact Or.inl hb
     · right; intro e; subst e; exact (hb r hr').1 ha
   · intro r hr' a ha
     apply (h.succ r hr' a ha).of_setSeq hg hr
-    rcases hb with hb | hb
+    intro hb0
+    rcases hb hb0 with hb | hb
     · exact Or.inl hb
     · right; intro e; subst e; exact (hb r hr').2 ha
   · exact h.ne
